@@ -1251,6 +1251,7 @@ impl Property for C16 {
                 "the visitor (recording visitor with injected failure); the parser is not involved (trees are built through public fields)".into(),
             ],
             step_unit: "visitor callbacks delivered",
+            history_measure: "distinct complete callback sequences (recorder, event list with statement addresses replaced by ordinals) of the walks without failure; every prefix of each is additionally reached by the walk that fails there",
         }
     }
 
